@@ -63,9 +63,9 @@ theorem diffIdx1_names (old : Table) (is : List Index) : ∀ is', diffIdx1 old i
           obtain ⟨oi, _, hc⟩ := bind_ok hc
           by_cases h1 : (oi.action != .none) = true
           · rw [if_pos h1] at hc
-            by_cases h2 : (i.typ == oi.typ && i.cols == oi.cols) = true
-            · rw [if_pos h2] at hc; have := pure_ok hc; subst this; rfl
-            · rw [if_neg h2] at hc; have := pure_ok hc; subst this; rfl
+            split at hc
+            · have := pure_ok hc; subst this; rfl
+            · have := pure_ok hc; subst this; rfl
           · rw [if_neg h1] at hc; have := pure_ok hc; subst this; rfl
       · rw [if_neg ha] at hc; have := pure_ok hc; subst this; rfl
     simp only [List.map_cons, hn, ih rest' hr]
